@@ -2829,4 +2829,166 @@ theorem locator_dc_restrict (ops : List COp) (spec : String × String) (tok : In
 
 end Round2
 
+/-! ### keyspaces whose fetch failed (`resolve_metadata_keyspaces`) -/
+
+section Resolve
+open ScyllaVerif.TabletsRefresh
+
+/-- the fetch result is a map by keyspace name, and a fetched keyspace carries its own name -/
+def WfFetched (fetched : List (String × Option KsMeta)) : Prop :=
+  (fetched.map (·.1)).Nodup ∧ ∀ e ∈ fetched, ∀ k, e.2 = some k → k.name = e.1
+
+private theorem mem_resolve {fetched : List (String × Option KsMeta)} {old : List KsMeta} {k : KsMeta}
+    (h : k ∈ resolveKeyspaces fetched old) :
+    ∃ e ∈ fetched, e.2 = some k ∨ (e.2 = none ∧ old.find? (fun x => x.name == e.1) = some k) := by
+  simp only [resolveKeyspaces, List.mem_filterMap] at h
+  obtain ⟨e, he, hk⟩ := h
+  refine ⟨e, he, ?_⟩
+  unfold resolveOne at hk
+  cases h2 : e.2 with
+  | none => rw [h2] at hk; exact Or.inr ⟨rfl, hk⟩
+  | some x => rw [h2] at hk; simp only [Option.some.injEq] at hk; subst hk; exact Or.inl rfl
+
+private theorem resolve_name {fetched : List (String × Option KsMeta)} (hw : WfFetched fetched) {old : List KsMeta}
+    {k : KsMeta} (h : k ∈ resolveKeyspaces fetched old) : ∃ e ∈ fetched, k.name = e.1 := by
+  obtain ⟨e, he, h1 | ⟨_, h2⟩⟩ := mem_resolve h
+  · exact ⟨e, he, hw.2 e he k h1⟩
+  · have := List.find?_some h2
+    exact ⟨e, he, by simpa using this⟩
+
+private theorem nodup_key_unique {α β : Type} (l : List (α × β)) (hnd : (l.map (·.1)).Nodup) (a b : α × β)
+    (ha : a ∈ l) (hb : b ∈ l) (hk : a.1 = b.1) : a = b := by
+  induction l with
+  | nil => cases ha
+  | cons x rest ih =>
+    simp only [List.map_cons, List.nodup_cons] at hnd
+    rcases List.mem_cons.mp ha with rfl | ha' <;> rcases List.mem_cons.mp hb with rfl | hb'
+    · rfl
+    · exact absurd (List.mem_map.mpr ⟨b, hb', hk.symm⟩) hnd.1
+    · exact absurd (List.mem_map.mpr ⟨a, ha', hk⟩) hnd.1
+    · exact ih hnd.2 ha' hb'
+
+/-- the resolved keyspaces are again a map by name -/
+theorem resolve_nodup (fetched : List (String × Option KsMeta)) (hw : WfFetched fetched) (old : List KsMeta) :
+    ((resolveKeyspaces fetched old).map (·.name)).Nodup := by
+  induction fetched with
+  | nil => simp [resolveKeyspaces]
+  | cons e rest ih =>
+    obtain ⟨hnd, hwf⟩ := hw
+    simp only [List.map_cons, List.nodup_cons] at hnd
+    have hw' : WfFetched rest := ⟨hnd.2, fun x hx => hwf x (List.mem_cons_of_mem _ hx)⟩
+    have ih' := ih hw'
+    cases hg : resolveOne old e with
+    | none =>
+      have : resolveKeyspaces (e :: rest) old = resolveKeyspaces rest old := by
+        simp only [resolveKeyspaces, List.filterMap_cons, hg]
+      rw [this]; exact ih'
+    | some k =>
+      have hc : resolveKeyspaces (e :: rest) old = k :: resolveKeyspaces rest old := by
+        simp only [resolveKeyspaces, List.filterMap_cons, hg]
+      rw [hc]
+      have hname : k.name = e.1 := by
+        unfold resolveOne at hg
+        cases h2 : e.2 with
+        | some x =>
+          rw [h2] at hg; simp only [Option.some.injEq] at hg; subst hg
+          exact hwf e List.mem_cons_self x h2
+        | none =>
+          rw [h2] at hg
+          simpa using List.find?_some hg
+      simp only [List.map_cons, List.nodup_cons]
+      refine ⟨?_, ih'⟩
+      intro hmem
+      obtain ⟨k', hk', e1⟩ := List.mem_map.mp hmem
+      obtain ⟨e', he', e2⟩ := resolve_name hw' hk'
+      apply hnd.1
+      rw [← hname, ← e1, e2]
+      exact List.mem_map.mpr ⟨e', he', rfl⟩
+
+/-- what a refresh leaves in the tablet map is decided by the resolved keyspaces: a table or view of a resolved
+tablet-based keyspace has an entry … -/
+theorem refreshFetched_entry_iff (cs : CState) (peers : List Peer) (fetched : List (String × Option KsMeta))
+    (hw : WfFetched fetched) (old : List KsMeta) (k : KsMeta) (hk : k ∈ resolveKeyspaces fetched old) (name : String) :
+    (alGet (k.name, name) (refreshFetched cs peers fetched old).info.tables).isSome =
+      (k.tabletBased && (k.tables.contains name || k.views.contains name)) :=
+  maintenanceKs_entry_iff cs.info _ (resolve_nodup fetched hw old) _ _ _ k hk name
+
+/-- … and a keyspace that is not among the resolved ones has none of its tables in the tablet map -/
+theorem refreshFetched_absent (cs : CState) (peers : List Peer) (fetched : List (String × Option KsMeta))
+    (hw : WfFetched fetched) (old : List KsMeta) (n : String)
+    (h : ∀ k ∈ resolveKeyspaces fetched old, k.name ≠ n) (tb : String) :
+    alGet (n, tb) (refreshFetched cs peers fetched old).info.tables = none := by
+  have hnd' : (((resolveKeyspaces fetched old).map KsMeta.entry).map (·.1)).Nodup := by
+    simpa [List.map_map, Function.comp_def, KsMeta.entry] using resolve_nodup fetched hw old
+  have hget : alGet n ((resolveKeyspaces fetched old).map KsMeta.entry) = none := by
+    generalize resolveKeyspaces fetched old = R at h
+    induction R with
+    | nil => rfl
+    | cons k R ih =>
+      have h1 := h k List.mem_cons_self
+      simp only [List.map_cons, alGet, KsMeta.entry, h1, if_false]
+      exact ih (fun x hx => h x (List.mem_cons_of_mem _ hx))
+  show alGet (n, tb) (cs.info.maintenance _ _ _ _).tables = none
+  rw [alGet_maintenance _ _ hnd']
+  simp [keptBy, hget]
+
+/-- **Fetch succeeded**: the keyspace is judged by what was fetched. -/
+theorem refresh_fetch_ok (fetched : List (String × Option KsMeta)) (old : List KsMeta) (n : String) (k : KsMeta)
+    (h : (n, some k) ∈ fetched) : k ∈ resolveKeyspaces fetched old := by
+  simp only [resolveKeyspaces, List.mem_filterMap]
+  exact ⟨(n, some k), h, rfl⟩
+
+/-- **Fetch failed, an older version exists**: the keyspace is judged by the OLD version — its tables and views
+keep their tablets (maintained), exactly as if nothing about the schema had changed. -/
+theorem refresh_fetch_failed_old (fetched : List (String × Option KsMeta)) (old : List KsMeta)
+    (hold : (old.map (·.name)).Nodup) (n : String) (k : KsMeta) (h : (n, none) ∈ fetched) (hk : k ∈ old)
+    (hn : k.name = n) : k ∈ resolveKeyspaces fetched old := by
+  simp only [resolveKeyspaces, List.mem_filterMap]
+  refine ⟨(n, none), h, ?_⟩
+  show old.find? (fun x => x.name == n) = some k
+  -- `find?` returns the one keyspace of that name
+  clear h
+  induction old with
+  | nil => cases hk
+  | cons x old ih =>
+    simp only [List.map_cons, List.nodup_cons] at hold
+    rcases List.mem_cons.mp hk with rfl | hm
+    · simp [hn]
+    · have hne : ¬ x.name = n := by
+        intro e
+        apply hold.1
+        rw [e, ← hn]
+        exact List.mem_map.mpr ⟨k, hm, rfl⟩
+      have hb : (x.name == n) = false := by simpa using hne
+      simp only [List.find?_cons, hb]
+      exact ih hold.2 hm
+
+/-- **Fetch failed, no older version**: the keyspace is absent after the refresh and `perform_maintenance` discards
+every tablet of every one of its tables (they are learnt again from the servers' feedback later). -/
+theorem refresh_fetch_failed_no_old (cs : CState) (peers : List Peer) (fetched : List (String × Option KsMeta))
+    (hw : WfFetched fetched) (old : List KsMeta) (n : String) (h : (n, none) ∈ fetched)
+    (hno : ∀ k ∈ old, k.name ≠ n) (tb : String) :
+    alGet (n, tb) (refreshFetched cs peers fetched old).info.tables = none := by
+  apply refreshFetched_absent cs peers fetched hw old n
+  intro k hk hname
+  obtain ⟨e, he, h1 | ⟨h2, h3⟩⟩ := mem_resolve hk
+  · -- a fetched keyspace of that name would be a second entry with key `n`
+    have hke := hw.2 e he k h1
+    have hkey : e.1 = n := by rw [← hke, hname]
+    have : e = (n, none) := nodup_key_unique fetched hw.1 e (n, none) he h hkey
+    rw [this] at h1
+    cases h1
+  · have hmem := List.mem_of_find?_eq_some h3
+    have := List.find?_some h3
+    have hke : k.name = e.1 := by simpa using this
+    exact hno k hmem hname
+
+-- non-vacuity: the fetch of `ks` fails; with an older version its tablets stay, without one they are discarded
+private def csr : CState := crun [.refresh [pr 1 "dc1" 0] [("ks", true, ["t"])], .learn "ks" "t" 0 5 [(1, 0)]]
+example : sig (refreshFetched csr [pr 1 "dc1" 0] [("ks", none)] [⟨"ks", true, ["t"], []⟩]) = [[(0, 5, [(1, 0)])]] := by decide
+example : sig (refreshFetched csr [pr 1 "dc1" 0] [("ks", none)] []) = [] := by decide
+example : sig (refreshFetched csr [pr 1 "dc1" 0] [("ks", some ⟨"ks", true, [], ["t"]⟩)] []) = [[(0, 5, [(1, 0)])]] := by decide
+
+end Resolve
+
 end ScyllaVerif.Props.C15
